@@ -313,6 +313,15 @@ pub fn replay(args: &[String]) {
                     return Err(("created:otherkey".into(), "library-created message validates under another key".into()));
                 }
             }
+            // a second message under the same key whose window starts with the first and ends later (whatever the library keeps
+            // from one message to the next - a list, a number - must serve the later one as well): valid up to ITS end
+            let later = SignedMessage::create(Bytes::copy_from_slice(content), Validity::new(time_of(0), time_of(4)), &pki.key("k0"), &pki.signer).map_err(|e| ("created".to_string(), e.to_string()))?;
+            let later = SignedMessage::decode(later.to_captured().into_bytes(), true).map_err(|e| ("created:decode".to_string(), e.to_string()))?;
+            for (t, ok) in [(time_of(1), true), (time_of(3), true), (time_of(4), true), (time_of(4) + chrono::TimeDelta::try_seconds(1).unwrap(), false)] {
+                if later.validate_at(&pki.pubkey("k0"), t).is_ok() != ok {
+                    return Err(("created:window:second".into(), format!("the second library-created message (valid {:?} to {:?}) validates = {} at {t:?}", time_of(0), time_of(4), !ok)));
+                }
+            }
             // a validity with its ends the wrong way round contains no instant: such a message validates at no time
             let inv = SignedMessage::create(Bytes::copy_from_slice(content), Validity::new(time_of(2), time_of(0)), &pki.key("k0"), &pki.signer).map_err(|e| ("created".to_string(), e.to_string()))?;
             let inv_back = SignedMessage::decode(inv.to_captured().into_bytes(), false).map_err(|e| ("created:decode".to_string(), e.to_string()))?;
@@ -326,6 +335,29 @@ pub fn replay(args: &[String]) {
     });
     EPOCH.store(0, std::sync::atomic::Ordering::SeqCst);
     pki.signer.script_rand(None);
+    // identity keys and one-off keys of 3072 and 4096 bits
+    let r2 = guarded(|| -> Result<(), (String, String)> {
+        use aws_lc_rs::rsa::KeySize;
+        for (peer_size, one_off) in [(KeySize::Rsa3072, KeySize::Rsa2048), (KeySize::Rsa2048, KeySize::Rsa3072), (KeySize::Rsa4096, KeySize::Rsa4096)] {
+            let signer = SizedSigner::new(one_off);
+            let (peer, rival) = (signer.add_key(peer_size), signer.add_key(peer_size));
+            use rpki::crypto::Signer;
+            let msg = SignedMessage::create(Bytes::from_static(b"content"), Validity::new(time_of(0), time_of(2)), &peer, &signer).map_err(|e| ("created:keysize".to_string(), e.to_string()))?;
+            for strict in [true, false] {
+                let back = SignedMessage::decode(msg.to_captured().into_bytes(), strict).map_err(|e| ("created:keysize".to_string(), format!("does not decode: {e}")))?;
+                back.validate_at(&signer.get_key_info(&peer).unwrap(), time_of(1)).map_err(|e| ("created:keysize".to_string(), format!("a message under a {peer_size:?} identity key with a {one_off:?} one-off key does not validate: {e}")))?;
+                if back.validate_at(&signer.get_key_info(&rival).unwrap(), time_of(1)).is_ok() {
+                    return Err(("created:keysize".into(), "validates under another key".into()));
+                }
+            }
+        }
+        Ok(())
+    });
+    match r2 {
+        Ok(Ok(())) => {}
+        Ok(Err((k, m))) => s.violation(&k, m, json!({"library_created": true})),
+        Err(m) => s.violation("created:panic", m, json!({"library_created": true})),
+    }
     match r {
         Ok(Ok(())) => {}
         Ok(Err((k, m))) => s.violation(&k, m, json!({"library_created": true})),
